@@ -1,8 +1,11 @@
 (* C15 - Grid orthogon decomposition finds exactly the single-trunk decompositions.
    Statements only; every proof is [exact <lemma>]. *)
 From Coq Require Import List Bool Arith.
-From FrameModel Require Import Strop.Strop Strop.Spec Strop.StropBase Strop.StropFacts.
+From FrameModel Require Import Num.QcTac Geometry.Rect Stog.CreateStog Stog.StogFacts.
+From FrameModel Require Import Strop.Strop Strop.Spec Strop.StropBase Strop.StropFacts
+     Strop.StropComplete Strop.StropStog Strop.Polygon Strop.PolygonFacts.
 Import ListNotations.
+Open Scope nat_scope.
 
 (* Bounded completeness + soundness (finite domain stated in the theorem): for every
    0/1 matrix of every shape R x C with R, C >= 1 and R*C <= 16 (all 2^(R*C) matrices of
@@ -61,8 +64,184 @@ Theorem C15_decomp_area : forall M T Bs, wf_matrix M = true -> decomp M T Bs ->
 Proof. exact decomp_area. Qed.
 Print Assumptions C15_decomp_area.
 
-(* Not proved in Coq (kept visible): completeness for matrices of every size, and the polygon
-   level (cell centre inside the polygon by the even-odd rule <-> cell inside the polygon, for
-   every simple orthogonal polygon), which is explored by the correspondence/oracle only. *)
-Definition C15_strop_complete_statement : Prop :=
-  forall M T Bs, wf_matrix M = true -> decomp M T Bs -> is_strop M = true.
+(* ====================== completeness for matrices of ANY size ====================== *)
+(* whenever some trunk T and branch list Bs decompose the grid (T need not be one of the
+   candidates the code examines), Strop offers at least one instance *)
+Theorem C15_strop_complete : forall M T Bs, wf_matrix M = true -> decomp M T Bs -> is_strop M = true.
+Proof. exact strop_complete. Qed.
+Print Assumptions C15_strop_complete.
+
+(* ... and when the brute-force existence test succeeds *)
+Theorem C15_strop_complete_has_decomp : forall M, wf_matrix M = true -> has_decomp M = true ->
+  is_strop M = true.
+Proof. exact strop_complete_has_decomp. Qed.
+Print Assumptions C15_strop_complete_has_decomp.
+
+(* "reports a decomposition exactly when one exists", every size *)
+Theorem C15_strop_iff : forall M, wf_matrix M = true ->
+  (is_strop M = true <-> has_decomp M = true) /\
+  (is_strop M = true <-> exists T Bs, decomp M T Bs).
+Proof. exact strop_iff. Qed.
+Print Assumptions C15_strop_iff.
+
+(* the statement of C15_strop_complete_bounded without its bound *)
+Theorem C15_strop_complete_shape : forall R C M, 1 <= R -> 1 <= C -> shape M R C ->
+  (is_strop M = true <-> has_decomp M = true) /\
+  (is_strop M = true <-> exists T Bs, decomp M T Bs) /\
+  (forall inst, In inst (instances M) -> decomp M (trunk inst) (branches inst)).
+Proof. exact strop_complete_shape. Qed.
+Print Assumptions C15_strop_complete_shape.
+
+(* the hypotheses are satisfiable beyond the sweep's bound (30 cells); the decomposition trunk
+   given here is not among the code's candidates, four others are offered *)
+Example C15_strop_complete_ex :
+  wf_matrix big_example = true /\
+  decomp_b big_example (mkSR 1 3 2 3) [mkSR 0 0 2 3; mkSR 4 4 3 3; mkSR 1 1 1 1; mkSR 2 2 0 1;
+                                       mkSR 3 3 1 1; mkSR 1 1 4 4; mkSR 2 2 4 5; mkSR 3 3 4 4] = true /\
+  map trunk (instances big_example) = [mkSR 0 3 2 3; mkSR 0 4 3 3; mkSR 1 3 1 4; mkSR 2 2 0 5].
+Proof. exact strop_complete_ex. Qed.
+
+(* the key step, as a statement about the code's candidate table: a full rectangle whose rows
+   are single runs and which cannot be extended by a full line on any side is returned by
+   _get_trunks_matrix *)
+Theorem C15_trunk_by_rows : forall M t,
+  rlo t <= rhi t -> rhi t < List.length M -> clo t <= chi t ->
+  (forall i j, rlo t <= i <= rhi t -> clo t <= j <= chi t -> cell M i j = true) ->
+  (forall k, rlo t <= k <= rhi t -> rowconvex M k) ->
+  (clo t = 0 \/ exists k, rlo t <= k <= rhi t /\ cell M k (clo t - 1) = false) ->
+  (exists k, rlo t <= k <= rhi t /\ cell M k (S (chi t)) = false) ->
+  (rlo t = 0 \/ exists j, clo t <= j <= chi t /\ cell M (rlo t - 1) j = false) ->
+  (exists j, clo t <= j <= chi t /\ cell M (S (rhi t)) j = false) ->
+  In t (get_trunks_matrix M).
+Proof. exact trunk_by_rows. Qed.
+Print Assumptions C15_trunk_by_rows.
+
+(* ====================== strop_to_stog: recognised by C06's create_stog ====================== *)
+Open Scope Qc_scope.
+
+(* The rectangles of an offered instance (trunk first), placed on a grid with column
+   boundaries X 0 < X 1 < ... and row boundaries Y 0 > Y 1 > ... (row 0 on top) whose columns
+   and rows are at least d wide, with tolerances 0 < eps, eps + eps <= d, 0 <= aeps: position 0
+   is a trunk in C06's coordinate sense, and the C06 model of create_stog answers true with a
+   rectangle labelled TRUNK first and a side for every other rectangle. *)
+Theorem C15_strop_to_stog : forall M inst (X Y : nat -> Qc) (d eps aeps : Qc),
+  wf_matrix M = true -> In inst (instances M) ->
+  (forall j, (j < ncols M)%nat -> X j + d <= X (S j)) ->
+  (forall i, (i < nrows M)%nat -> Y (S i) + d <= Y i) ->
+  0 < eps -> eps + eps <= d -> 0 <= aeps ->
+  let rs := map (to_rect X Y) (rectangles inst) in
+  is_stog_at eps aeps rs 0 (to_rect X Y (trunk inst)) /\
+  exists t rest, create_stog eps aeps rs = Some (true, set_loc t TRUNK :: rest) /\
+    Forall (fun r => rloc r <> NOPOLY /\ rloc r <> TRUNK /\ StogFacts.abuts eps aeps (rloc r) t r) rest.
+Proof. exact strop_to_stog. Qed.
+Print Assumptions C15_strop_to_stog.
+
+(* the same with Strop's width / height lists (boundaries = prefix sums) *)
+Theorem C15_strop_to_stog_widths : forall M inst (ws hs : list Qc) (x0 y0 d eps aeps : Qc),
+  wf_matrix M = true -> In inst (instances M) ->
+  List.length ws = ncols M -> List.length hs = nrows M ->
+  Forall (fun w => d <= w) ws -> Forall (fun h => d <= h) hs ->
+  0 < eps -> eps + eps <= d -> 0 <= aeps ->
+  let rs := map (to_rect (xs_of x0 ws) (ys_of y0 hs)) (rectangles inst) in
+  is_stog_at eps aeps rs 0 (to_rect (xs_of x0 ws) (ys_of y0 hs) (trunk inst)) /\
+  exists t rest, create_stog eps aeps rs = Some (true, set_loc t TRUNK :: rest) /\
+    Forall (fun r => rloc r <> NOPOLY /\ rloc r <> TRUNK /\ StogFacts.abuts eps aeps (rloc r) t r) rest.
+Proof. exact strop_to_stog_widths. Qed.
+Print Assumptions C15_strop_to_stog_widths.
+
+(* any decomposition at all (not only the offered ones), trunk first, is a STOG in coordinates;
+   only 0 < eps, 0 <= aeps and a positive minimal cell size are needed here *)
+Theorem C15_decomp_is_stog : forall (X Y : nat -> Qc) (nr nc : nat) (d : Qc),
+  (forall j, (j < nc)%nat -> X j + d <= X (S j)) ->
+  (forall i, (i < nr)%nat -> Y (S i) + d <= Y i) -> 0 < d ->
+  forall eps aeps : Qc, 0 < eps -> 0 <= aeps ->
+  forall M T Bs, nrows M = nr -> ncols M = nc -> decomp M T Bs ->
+  is_stog_at eps aeps (map (to_rect X Y) (T :: Bs)) 0 (to_rect X Y T).
+Proof. exact decomp_is_stog. Qed.
+Print Assumptions C15_decomp_is_stog.
+
+(* ====================== polygon level (model Strop/Polygon.v) ====================== *)
+(* every rectangle list the model of strop_decomposition(vertices) can return comes from an
+   offered instance of the grid matrix and, loaded as coordinate rectangles, is recognised by
+   the C06 model with the trunk first (d bounds the gaps of the coordinate lists from below) *)
+Theorem C15_poly_to_stog : forall vs L l (d eps aeps : Qc),
+  strop_decomposition_all vs = Some L -> In l L ->
+  (forall j, (S j < List.length (x_coords vs))%nat ->
+     nth j (x_coords vs) 0 + d <= nth (S j) (x_coords vs) 0) ->
+  (forall i, (S i < List.length (y_coords vs))%nat ->
+     nth (S i) (y_coords vs) 0 + d <= nth i (y_coords vs) 0) ->
+  0 < eps -> eps + eps <= d -> 0 <= aeps ->
+  exists inst, In inst (instances (grid_matrix vs)) /\
+    l = map (rect4 (x_coords vs) (y_coords vs)) (rectangles inst) /\
+    is_stog_at eps aeps (map rect_of4 l) 0 (rect_of4 (rect4 (x_coords vs) (y_coords vs) (trunk inst))) /\
+    exists t rest, create_stog eps aeps (map rect_of4 l) = Some (true, set_loc t TRUNK :: rest) /\
+      Forall (fun r => rloc r <> NOPOLY /\ rloc r <> TRUNK /\ StogFacts.abuts eps aeps (rloc r) t r) rest.
+Proof. exact poly_to_stog. Qed.
+Print Assumptions C15_poly_to_stog.
+
+(* such a d always exists: sorted(set(...)) is strictly monotone *)
+Theorem C15_poly_gaps : forall vs, exists d, 0 < d /\
+  (forall j, (S j < List.length (x_coords vs))%nat ->
+     nth j (x_coords vs) 0 + d <= nth (S j) (x_coords vs) 0) /\
+  (forall i, (S i < List.length (y_coords vs))%nat ->
+     nth (S i) (y_coords vs) 0 + d <= nth i (y_coords vs) 0).
+Proof. exact poly_gaps. Qed.
+Print Assumptions C15_poly_gaps.
+
+(* the even-odd test on a rectangle outline, either orientation, is the half-open box test *)
+Theorem C15_inside_rectangle : forall x0 x1 y0 y1 px py : Qc, x0 < x1 -> y0 < y1 ->
+  point_inside (px, py) [(x0, y0); (x1, y0); (x1, y1); (x0, y1)] = in_box x0 x1 y0 y1 px py /\
+  point_inside (px, py) [(x0, y1); (x1, y1); (x1, y0); (x0, y0)] = in_box x0 x1 y0 y1 px py.
+Proof. exact inside_rectangle. Qed.
+Print Assumptions C15_inside_rectangle.
+
+(* hence for a rectangle: cell centre inside <-> cell inside, for every refining grid *)
+Theorem C15_rectangle_cell_centre : forall x0 x1 y0 y1 a b c e : Qc,
+  x0 < x1 -> y0 < y1 -> a < b -> c < e ->
+  (x0 <= a -> b <= x1 -> y0 <= c -> e <= y1 ->
+     point_inside (mid a b, mid c e) [(x0, y0); (x1, y0); (x1, y1); (x0, y1)] = true) /\
+  (b <= x0 \/ x1 <= a \/ e <= y0 \/ y1 <= c ->
+     point_inside (mid a b, mid c e) [(x0, y0); (x1, y0); (x1, y1); (x0, y1)] = false).
+Proof. exact rectangle_cell_centre. Qed.
+Print Assumptions C15_rectangle_cell_centre.
+
+(* for ANY vertex list: the test depends neither on the orientation nor on the start vertex *)
+Theorem C15_point_inside_rev : forall p vs, point_inside p (rev vs) = point_inside p vs.
+Proof. exact point_inside_rev. Qed.
+Print Assumptions C15_point_inside_rev.
+Theorem C15_point_inside_shift : forall p l1 l2, point_inside p (l2 ++ l1) = point_inside p (l1 ++ l2).
+Proof. exact point_inside_shift. Qed.
+Print Assumptions C15_point_inside_shift.
+
+(* worked examples: hypotheses of the implications above are satisfiable *)
+Example C15_strop_to_stog_ex :
+  let M := [[false; true; false; false]; [true; true; true; false];
+            [false; true; true; true]; [false; false; true; false]] in
+  let rs := map (to_rect (xs_of 0 [qc 1 1; qc 2 1; qc 1 2; qc 1 1]) (ys_of (qc 10 1) [qc 1 1; qc 3 1; qc 1 4; qc 2 1]))
+                (List.concat (map rectangles (instances M))) in
+  map trunk (instances M) = [mkSR 1 2 1 2] /\ List.length rs = 5%nat /\
+  exists out, create_stog (qc 1 1024) (qc 1 1024) rs = Some (true, out) /\
+              map rloc out = [TRUNK; NORTH; SOUTH; EAST; WEST].
+Proof. exact strop_to_stog_ex. Qed.
+
+Example C15_poly_ex :
+  grid_matrix L_example = [[true; false]; [true; true]] /\
+  exists l1 l2, strop_decomposition_all L_example = Some [l1; l2] /\
+    map (fun l => option_map (fun x => (fst x, map rloc (snd x)))
+                    (create_stog (qc 1 100) (qc 1 100) (map rect_of4 l))) [l1; l2] =
+    [Some (true, [TRUNK; EAST]); Some (true, [TRUNK; NORTH])].
+Proof. exact poly_ex. Qed.
+
+(* Not proved in Coq (kept visible): "the resulting rectangles have the polygon's area" for
+   every simple orthogonal polygon ([orthogonal], [simple], [shoelace] are defined in
+   Strop/PolygonFacts.v).  It needs: cell centre inside by the even-odd rule <-> cell inside the
+   polygon, a Jordan-curve argument; proved above for rectangle outlines only.  For single-trunk
+   polygons it is explored by the correspondence (the model's rectangles equal the
+   implementation's) and the oracle (shoelace area) on every run. *)
+Definition C15_polygon_area_statement : Prop :=
+  forall vs L l, orthogonal vs -> simple vs -> strop_decomposition_all vs = Some L -> In l L ->
+    Qcsum (map rect4_area l) = shoelace vs.
+(* it holds of the worked example *)
+Example C15_polygon_area_ex : forall L l, strop_decomposition_all L_example = Some L -> In l L ->
+  Qcsum (map rect4_area l) = shoelace L_example.
+Proof. exact polygon_area_ex. Qed.
